@@ -171,11 +171,34 @@ func (g *Gen) run() (err error) {
 					if cs.Callee != cn || cs.K != ord[cn] || cs.Bind == nil {
 						continue
 					}
-					names := g.resultNames(cc.Signature(), g.calleeContract(cc))
+					ctc := g.calleeContract(cc)
+					names := g.resultNames(cc.Signature(), ctc)
 					for gname, rname := range cs.Bind {
 						for i, rn := range names {
 							if rn == rname {
 								t := cc.Signature().Results().At(i).Type()
+								sort := g.m.sortOf(t)
+								n := "ghost_" + san(gname)
+								g.emit("(declare-const " + n + " " + sort + ")")
+								g.params[gname] = Val{S: n, Sort: sort, G: t}
+							}
+						}
+						// an argument of the call, by the callee's parameter name
+						var pn []string
+						if ctc != nil && ctc.Extern {
+							pn = ctc.ParamN
+						} else if f, ok := cc.Value.(*ssa.Function); ok {
+							for _, p := range f.Params {
+								pn = append(pn, p.Name())
+							}
+						}
+						off := 0
+						if cc.IsInvoke() {
+							off = 1
+						}
+						for i, name := range pn {
+							if name == rname && i-off >= 0 && i-off < len(cc.Args) {
+								t := cc.Args[i-off].Type()
 								sort := g.m.sortOf(t)
 								n := "ghost_" + san(gname)
 								g.emit("(declare-const " + n + " " + sort + ")")
